@@ -85,9 +85,13 @@ FnConsts == {i \in 1..Len(Consts) : Consts[i].t = "Fn"}
 
 (* region 0 is the main code; region i (a constant index) is that function's body *)
 RegLo(r) == IF r = 0 THEN 0 ELSE Consts[r].ip
-EntryOk(r) == r = 0 \/ (Consts[r].ip >= 3 /\ Consts[r].ip <= CLen
-                        /\ (Consts[r].ip - 3) \in bnd /\ NameAt(Consts[r].ip - 3) = "Jump")
-RegHi(r) == IF r = 0 THEN CLen ELSE U16(Consts[r].ip - 2)
+(* a function body is normally preceded by the Jump that skips it; its target is the body's end.   *)
+(* If the code generator lays bodies out differently the extent is unknown: the body then extends  *)
+(* to the end of the code (weaker region checks, no false alarm).                                   *)
+Skipped(r) == Consts[r].ip >= 3 /\ (Consts[r].ip - 3) \in bnd /\ NameAt(Consts[r].ip - 3) = "Jump"
+                /\ U16(Consts[r].ip - 2) > Consts[r].ip /\ U16(Consts[r].ip - 2) <= CLen
+EntryOk(r) == r = 0 \/ (Consts[r].ip < CLen /\ Consts[r].ip \in bnd)
+RegHi(r) == IF r = 0 THEN CLen ELSE IF Skipped(r) THEN U16(Consts[r].ip - 2) ELSE CLen
 RegBase(r) == IF r = 0 THEN 0 ELSE Consts[r].nl
 Regions == {0} \cup {r \in FnConsts : EntryOk(r)}
 Inside(ip, r) == RegLo(r) <= ip /\ ip < RegHi(r)
@@ -217,9 +221,17 @@ ViolSeq(S) == LET RECURSIVE Ser(_)
                                  IN <<x>> \o Ser(T \ {x})
               IN Ser(S)
 
+(* instruction names this specification knows the stack effect of; a program that uses another one   *)
+(* (an extended instruction set) gets no verdict                                                    *)
+KnownNames == BinNames \cup FusedNames \cup {"Const", "True", "False", "Null", "Pop", "Not", "Negate", "Jump", "JumpIfFalse",
+                 "GetGlobal", "SetGlobal", "GetLocal", "SetLocal", "Call", "Return", "ReturnValue", "CallBuiltin",
+                 "Array", "IndexGet", "IndexSet", "Halt"}
+UnknownUsed == \E ip \in bnd : NameAt(ip) \notin KnownNames
+
 Report ==
   Done => PrintT(<<"VERDICT", ToJson([id |-> Recs[pid].id,
-                                      class |-> IF Unsafe # {} THEN "mismatch"
+                                      class |-> IF UnknownUsed THEN "skip"
+                                                ELSE IF Unsafe # {} THEN "mismatch"
                                                 ELSE IF viol # {} THEN "residue" ELSE "agree",
                                       rule |-> IF viol = {} THEN "safe"
                                                ELSE (CHOOSE v \in viol : \A z \in viol : v.ip <= z.ip).class,
